@@ -1,14 +1,15 @@
 """C07 configuration for ./check (keys: see checks/propcfg.py)."""
 CFG = {
     "modules": ["VaxisModel.Props.C07"],
-    "extractors": ["C07", "C04"],
-    "drivers": ["C07", "C07caps"],
-    "trivial_prefix": ("id:",),
+    "extractors": ["C07", "C04", "C18"],
+    "drivers": ["C07", "C07caps", "C01", "C04"],
+    "stateful_drivers": ["C01", "C04"],
+    "trivial_prefix": ("id:", "-", "bytes="),
     "rule": "C07: asIndex on default + all 256 indexed colours, every palette colour, 23^3 boundary channel values, random direct "
             "colours (quick) / all 2^24 direct colours (thorough); C07caps: real vaxis.New on the fake console for advertised "
             "capability subsets (3000 random + the cursor-in-column-2 scenarios in quick, all 2^16 subsets in thorough), detected "
             "flags and Can* accessors, RenderedWidth of 14 graphemes under the detected method; non-trivial = a direct colour / a caps "
-            "or width line; distinct by op line",
+            "or width line; distinct by op line; plus the C01 frame-history stream and the C04 session stream, whose drivers also judge every real token against the gated vocabulary (allowedTok / allowedLife) under the detected capability set",
     "trusted_base": ["float64 distance step modelled by exact integer score x10^4 (DESIGN §3.5); compared by score of the chosen entry",
                      "uniseg.StringWidth / runewidth.RuneWidth are parameters (the three candidate measurements are computed by the harness)",
                      "renderer and lifecycle models are those of C01/C04 (tied to the code by their correspondence checks)"],
